@@ -12,7 +12,7 @@
 use vstd::prelude::*;
 //@prelude fmt_macro
 verus! {
-//@prelude std_specs r32 attrmap
+//@prelude std_specs r32 attrmap pending
 
 pub enum SvgdxError { InvalidData(String), MissingBoundingBox(String), ParseError(String), ReferenceError(String), Other }
 pub type Result<T> = core::result::Result<T, SvgdxError>;
@@ -71,6 +71,8 @@ pub uninterp spec fn length_parse(s: Seq<char>) -> Option<Length>;
 pub uninterp spec fn split_x(s: Seq<char>) -> Seq<char>;
 pub uninterp spec fn split_y(s: Seq<char>) -> Seq<char>;
 pub uninterp spec fn target_bbox(e: SvgElement, ctx: Ctx) -> Option<Option<BoundingBox>>;
+/// the element a use / reuse refers to, as registered (a function of the element and the element tables)
+pub uninterp spec fn target_el_of(e: SvgElement, ctx: Ctx) -> Option<SvgElement>;
 pub open spec fn written(m: M, k: Seq<char>, x: real) -> bool { m.dom().contains(k) && m[k] == fstr_spec(x) }
 pub open spec fn lacks(m: M, ks: Seq<Seq<char>>) -> bool { forall|i: int| 0 <= i < ks.len() ==> !m.dom().contains(#[trigger] ks[i]) }
 pub open spec fn adjust_len(l: Length, x: real) -> real { match l { Length::Absolute(a) => x + val(a), Length::Ratio(r) => x * val(r) } }
@@ -322,7 +324,11 @@ impl SvgElement {
 
     // ---- the element's own size (what direction placement centres and steps back by)
     #[verifier::external_body]
-    pub fn get_target_element(&self, ctx: &Ctx) -> (r: Result<SvgElement>) { unimplemented!() }
+    pub fn get_target_element(&self, ctx: &Ctx) -> (r: Result<SvgElement>)
+        ensures (match target_el_of(*self, *ctx) { Some(t) => r == Ok::<SvgElement, SvgdxError>(t), None => r is Err }) { unimplemented!() }
+    /// U-ctxbbox: C10.pending.spec (proved there)
+    #[verifier::external_body]
+    pub fn has_pending_geometry(&self) -> (r: bool) ensures r == unresolved(self.name@, self.attrs@) { unimplemented!() }
     /// recursive call of size() on the target of a use / reuse (opaque: the target is another element)
     #[verifier::external_body]
     pub fn target_size(&self, ctx: &Ctx) -> (r: Result<Option<Size>>) { unimplemented!() }
@@ -357,6 +363,7 @@ impl SvgElement {
 //@       r->Ok_0 is Some && val(r->Ok_0->Some_0.0) == rabs_(num(self.attrs@, "x2"@)->Some_0 - num(self.attrs@, "x1"@)->Some_0)
 //@       && val(r->Ok_0->Some_0.1) == rabs_(num(self.attrs@, "y2"@)->Some_0 - num(self.attrs@, "y1"@)->Some_0)     @@C09.size.line
 //@ - self.attrs@.dom().contains("width"@) && strp_spec(self.attrs@["width"@]) is None ==> r is Err     @@C09.size.unresolved_is_error
+//@ - (self.name@ == "use"@ || self.name@ == "reuse"@) && r is Ok && target_el_of(*self, *ctx) is Some ==> !unresolved(target_el_of(*self, *ctx)->Some_0.name@, target_el_of(*self, *ctx)->Some_0.attrs@)     @@C10.size.pending_target_is_error @@C09.size.pending_target_is_error
 //@end
 
     // ---- element-relative attribute values: the reference must be resolvable NOW or the element must fail (and be retried)
